@@ -138,5 +138,8 @@ void h_cover(void) {
   if (level == Motion_Position && !MINE_Q(&s, gq) && MINE_U(&s, gu)) __CPROVER_cover(1);
   if (level == Motion_NoLevel && s.stage >= Stage_Model && gm > 0) __CPROVER_cover(1);
   if (s.stage < Stage_Model && s.stage >= Stage_Topology) __CPROVER_cover(1);
+#ifdef DYN_COVER
+  DYN_COVER
+#endif
 }
 #endif
